@@ -106,13 +106,25 @@ func (fv *FuncVerifier) libModel(st *State, full string, fn *types.Func, recv *V
 		fv.oblige(st, "bounds", text, "(>= "+sLen(a[0].T)+" "+itoa(n)+")")
 		little := strings.Contains(full, "littleEndian")
 		val := fv.nameTerm(st, a[1].T, "Int")
+		// bytes characterised linearly: val = sum b_k * 256^k with 0 <= b_k < 256 (unique decomposition)
+		bs := make([]string, n)
+		sum := "0"
+		for k := 0; k < n; k++ {
+			bs[k] = fv.fresh("byte", "Int")
+			fv.assumeGlobal("(and (<= 0 " + bs[k] + ") (< " + bs[k] + " 256))")
+			if k == 0 {
+				sum = bs[k]
+			} else {
+				sum = "(+ " + sum + " (* " + pow2big(8*k) + " " + bs[k] + "))"
+			}
+		}
+		fv.assume(st, "(= "+val+" "+sum+")")
 		for i := 0; i < n; i++ {
 			k := i
 			if !little {
 				k = n - 1 - i
 			}
-			b := "(mod (div " + val + " " + pow2big(8*k) + ") 256)"
-			fv.writeElem(st, a[0], types.Typ[types.Uint8], itoa(i), b, text)
+			fv.writeElem(st, a[0], types.Typ[types.Uint8], itoa(i), bs[k], text)
 		}
 		fv.nameHeap(st, fv.eng.sc.sliceHeap(types.Typ[types.Uint8]))
 		return nil, true
